@@ -128,6 +128,11 @@ package ice
 //@   props C18
 //@   opt nosafety
 //@   site call gatherCandidatesLocalUDPMux#1 assert mux-host-candidates-only-if-a-udp-type-is-enabled: has(networks, "udp")
+//@   ghostvar enabledNT bool = false
+//@   site call determineNetworkType#1 assert classifies-this-transport-and-address: arg0 == network && arg1 == mappedIP
+//@   site call Contains#1 assert looks-the-combination-up-in-the-enabled-network-types: arg0 == networkTypes && arg1 == networkType
+//@   site call Contains#1 ghost enabledNT := result
+//@   site call addCandidate#1 assert publishes-only-enabled-combinations-of-transport-and-family: enabledNT
 //@   loop 1 invariant only-tcp-and-udp-keys: forall k string :: has(networks, k) ==> k == "tcp" || k == "udp"
 //@   loop 1 invariant udp-only-if-a-udp-type-is-enabled: has(networks, "udp") ==> exists j int :: 0 <= j && j <= rangeindex && old(networkTypes[j]) != NetworkTypeTCP4 && old(networkTypes[j]) != NetworkTypeTCP6
 //@   loop 1 invariant tcp-only-if-a-tcp-type-is-enabled: has(networks, "tcp") ==> exists j int :: 0 <= j && j <= rangeindex && (old(networkTypes[j]) == NetworkTypeTCP4 || old(networkTypes[j]) == NetworkTypeTCP6)
